@@ -177,12 +177,6 @@ theorem run_lossless (lr : Option (Nat × Nat)) : ∀ (evs : List REv) (st : St)
 
 /-! ### ranges -/
 
-theorem textOf_append (a b : List Tok) : textOf (a ++ b) = textOf a ++ textOf b := by
-  simp [textOf]
-
-theorem textOf_cons (t : Tok) (ts : List Tok) : textOf (t :: ts) = t.text ++ textOf ts := by
-  simp [textOf]
-
 theorem ranges_within (toks : List Tok) : ∀ (off : Nat) (r : Nat × Nat), r ∈ ranges off toks →
     off ≤ r.1 ∧ r.1 ≤ r.2 ∧ r.2 ≤ off + byteLen (textOf toks) := by
   induction toks with
